@@ -182,6 +182,57 @@ def wire_programs():
     return out
 
 
+def twin_programs():
+    """a sequence-set key and a UID-set key side by side (the engine's constant hash for symbolic values cannot tell
+    hash-compared keys apart, so these run with concrete operands, where hashing is the real one)"""
+    inst = [2000]
+
+    def leaf(name):
+        inst[0] += 1
+        return [name, inst[0]]
+    out = []
+    for a, b in [('SEQ1', 'UID1'), ('SEQR', 'UIDR'), ('SEQSTAR', 'UIDSTAR')]:
+        out.append([leaf(a), leaf(b)])
+        out.append([leaf(b), leaf(a)])
+        out.append([('OR', leaf(a), leaf(b))])
+        out.append([('OR', leaf('SEEN'), leaf(a)), ('OR', leaf('SEEN'), leaf(b))])
+    return out
+
+
+def _harness_wire_concrete(flagsets):
+    progs = twin_programs()
+    SymD, SymDT = make_date_types()
+
+    def fn(eng):
+        from pysymex import Outcome
+        pi = eng.choose('prog', len(progs))
+        program = progs[pi]
+        base = 2
+        uidcmd = eng.flip('uidcmd')
+        n = len(flagsets)
+        a = 1 + eng.choose('a', n + base + 1)
+        b = 1 + eng.choose('b', n + base + 1)
+        same = eng.flip('same_text')
+        ops = {}
+        for name, inst in leaves(('SET', program), []):
+            if name.startswith('SEQ'):
+                ops[inst] = [a, b]
+            elif name.startswith('UID'):
+                ops[inst] = [a, b] if same else [a + 1, b + 2]
+            else:
+                ops[inst] = []
+        bad = []
+        w = {'prog': pi, 'base': base, 'uidcmd': uidcmd, 'flagsets': flagsets, 'wire': True, 'twin': True,
+             'ops': {str(k): v for k, v in ops.items()}}
+        err = scenario(_g, _g['_sim'], base, flagsets, program, ops, uidcmd, False,
+                       lambda c, msg='': bad.append(msg or 'obligation failed') if not bool(c) else None, SymDT,
+                       wire=lambda items: memoryview(bytes(items)))
+        if err is not None:
+            bad.append(err)
+        return Outcome(not bad, witness=lambda m: w, info=(bad or [None])[0])
+    return fn
+
+
 def _harness_wire(flagsets):
     progs = wire_programs()
     SymD, SymDT = make_date_types()
@@ -443,6 +494,10 @@ def harnesses(tier):
                       {'messages': len(fsets[0]), 'programs': len(wire_programs()),
                        'what': 'program rendered as SEARCH / UID SEARCH text with symbolic numbers, parsed by the real parser'},
                       replay='wire', task_budget=60))
+    hs.append(Harness('search_over_the_wire_twin_keys', _harness_wire_concrete(fsets[0]),
+                      {'messages': len(fsets[0]), 'programs': len(twin_programs()), 'operands': 'concrete, drawn by the engine',
+                       'what': 'a sequence-set key and a UID-set key with the same or different text, side by side'},
+                      replay='wire', task_budget=60))
     hs.append(Harness('search_hidden_expunge', _harness(progs, fsets[0], True),
                       {'messages': len(fsets[0]), 'programs': len(progs), 'hidden_expunged': 1},
                       replay='search:%s' % tier, task_budget=40))
@@ -461,7 +516,7 @@ def replay(harness, w):
         SymD, SymDT = make_date_types()
         bad = []
         ops = {int(k): v for k, v in w['ops'].items()}
-        prog = wire_programs()[w['prog']]
+        prog = (twin_programs() if w.get('twin') else wire_programs())[w['prog']]
         err = scenario(g, _sim, w['base'], w['flagsets'], prog, ops, w['uidcmd'], False,
                        lambda c, msg='': bad.append(msg or 'obligation failed') if not c else None, SymDT,
                        wire=lambda items: memoryview(bytes(items)))
